@@ -140,3 +140,69 @@ package ctrlflow
 //@     invariant @comparison-k-compares-the-selector-for-equality: _i >= 1 ==> dyntypeis(entriesBlocks[_i-1].Instrs[0], *ssa.BinOp) && entriesBlocks[_i-1].Instrs[0].(*ssa.BinOp).X == phiInstr && entriesBlocks[_i-1].Instrs[0].(*ssa.BinOp).Op == token.EQL && entriesBlocks[_i-1].Instrs[0].(*ssa.BinOp).Y == info[_i-1].CompareVar && dyntypeis(entriesBlocks[_i-1].Instrs[1], *ssa.If) && entriesBlocks[_i-1].Instrs[1].(*ssa.If).Cond == entriesBlocks[_i-1].Instrs[0]
 //@     invariant @dispatcher-entry-jumps-to-the-first-comparison: _i == 1 ==> len(entryBlock.Succs) == 1 && entryBlock.Succs[0] == entriesBlocks[0]
 //@ end
+
+// ---- C11: xor hardening of the dispatcher keys ----
+// Every comparison constant becomes the literal k ^ globalKey and every stored constant the
+// expression (localKey ^ k), where localKey is initialised from the global that the emitted init code
+// computes as firstKey ^ secondKey[0] ^ ... — the same fold the generator runs here. k is fresh, non-zero,
+// pairwise distinct and different from globalKey, so the stored value is never 0 (0 is reserved for
+// the real entry block) and two edges never share a value.
+
+//@ ghost iden map[ref]int
+
+//@ hookset xorhard
+//@ hook after mvdan.cc/garble/internal/asthelper.IntLit(v) (r)
+//@   iden[r] = v
+//@ hook before mvdan.cc/garble/internal/asthelper.DataToArray(d)
+//@   assert("decoder-is-given-the-second-key-the-generator-folded", ref(d) == ref(secondKey) && len(d) == len(secondKey))
+//@ hook before mvdan.cc/garble/internal/ctrlflow.generateKeys(count, bl, r)
+//@   assert("one-key-per-dispatcher-edge-and-the-global-key-is-excluded", count == len(dispatcher) && len(bl) == 1 && bl[0] == globalKey)
+//@ end
+
+//@ func getRandomName
+//@   property C11
+//@   trusted draws a name from the seeded generator
+//@   assigns nothing
+//@ end
+
+//@ func (xorHardening).Apply
+//@   property C11
+//@   intmode bv
+//@   hooks xorhard
+//@   skip safety call-requires
+//@   requires forall k int :: 0 <= k && k < len(dispatcher) ==> dispatcher[k].CompareVar != nil && dispatcher[k].StoreVar != nil && dispatcher[k].CompareVar != dispatcher[k].StoreVar
+//@   ensures @decoder-starts-from-the-first-key-and-folds-the-second-key-with-xor: r0 != nil && dyntypeis(r0, *ast.GenDecl) && r0.(*ast.GenDecl).Tok == token.VAR && r0.(*ast.GenDecl).Specs[0].(*ast.ValueSpec).Names[0].Name == globalKeyName && dyntypeis(r0.(*ast.GenDecl).Specs[0].(*ast.ValueSpec).Values[0], *ast.CallExpr) && dyntypeis(r0.(*ast.GenDecl).Specs[0].(*ast.ValueSpec).Values[0].(*ast.CallExpr).Fun, *ast.FuncLit) && len(r0.(*ast.GenDecl).Specs[0].(*ast.ValueSpec).Values[0].(*ast.CallExpr).Fun.(*ast.FuncLit).Body.List) == 3 && iden[r0.(*ast.GenDecl).Specs[0].(*ast.ValueSpec).Values[0].(*ast.CallExpr).Fun.(*ast.FuncLit).Body.List[0].(*ast.AssignStmt).Rhs[0]] == firstKey && dyntypeis(r0.(*ast.GenDecl).Specs[0].(*ast.ValueSpec).Values[0].(*ast.CallExpr).Fun.(*ast.FuncLit).Body.List[1], *ast.RangeStmt) && r0.(*ast.GenDecl).Specs[0].(*ast.ValueSpec).Values[0].(*ast.CallExpr).Fun.(*ast.FuncLit).Body.List[1].(*ast.RangeStmt).X.(*ast.Ident).Name == "secondKey" && r0.(*ast.GenDecl).Specs[0].(*ast.ValueSpec).Values[0].(*ast.CallExpr).Fun.(*ast.FuncLit).Body.List[1].(*ast.RangeStmt).Body.List[0].(*ast.AssignStmt).Tok == token.XOR_ASSIGN
+//@   ensures @local-key-is-initialised-from-the-decoded-global: r1 != nil && dyntypeis(r1, *ast.AssignStmt) && r1.(*ast.AssignStmt).Tok == token.DEFINE && r1.(*ast.AssignStmt).Lhs[0].(*ast.Ident).Name == localKeyName && r1.(*ast.AssignStmt).Rhs[0].(*ast.Ident).Name == globalKeyName
+//@   loop 1
+//@     invariant @comparison-constant-is-the-key-xor-the-global-key: _i >= 1 ==> iden[ssaRemap[dispatcher[_i-1].CompareVar]] == newKeys[_i-1] ^ globalKey
+//@     invariant @stored-value-is-local-key-xor-the-key: _i >= 1 ==> dyntypeis(ssaRemap[dispatcher[_i-1].StoreVar], *ast.ParenExpr) && dyntypeis(ssaRemap[dispatcher[_i-1].StoreVar].(*ast.ParenExpr).X, *ast.BinaryExpr) && ssaRemap[dispatcher[_i-1].StoreVar].(*ast.ParenExpr).X.(*ast.BinaryExpr).Op == token.XOR && ssaRemap[dispatcher[_i-1].StoreVar].(*ast.ParenExpr).X.(*ast.BinaryExpr).X.(*ast.Ident).Name == localKeyName && iden[ssaRemap[dispatcher[_i-1].StoreVar].(*ast.ParenExpr).X.(*ast.BinaryExpr).Y] == newKeys[_i-1]
+//@ end
+
+// ---- C11: delegate-table hardening of the dispatcher keys ----
+// Edge i compares against the literal k_i and stores table[d_i](k_i ^ dk_i), where delegate d returns
+// its argument xor (int(key[delegateKeyIdxs[d]]) ^ delegateLocalKeys[d]) and dk_i is exactly that value
+// for d = d_i: the call yields k_i. Each of the three loops is proved to set up its own element.
+
+//@ hookset delegatehard
+//@ hook after mvdan.cc/garble/internal/asthelper.IntLit(v) (r)
+//@   iden[r] = v
+//@ hook before mvdan.cc/garble/internal/asthelper.DataToArray(d)
+//@   assert("the-table-is-built-from-the-key-bytes-the-generator-used", ref(d) == ref(key) && len(d) == len(key))
+//@ end
+
+//@ func (delegateTableHardening).Apply
+//@   property C11
+//@   intmode bv
+//@   hooks delegatehard
+//@   skip safety call-requires
+//@   requires len(dispatcher) >= 1 && forall k int :: 0 <= k && k < len(dispatcher) ==> dispatcher[k].CompareVar != nil && dispatcher[k].StoreVar != nil && dispatcher[k].CompareVar != dispatcher[k].StoreVar
+//@   ensures @no-extra-statement-is-needed: isnil(r1)
+//@   loop 0
+//@     invariant @each-edge-picks-a-delegate-that-exists-and-records-its-key: _i >= 1 ==> 0 <= delegateIndexes[_i-1] && delegateIndexes[_i-1] < delegateCount && delegateKeys[_i-1] == int(key[delegateKeyIdxs[delegateIndexes[_i-1]]]) ^ delegateLocalKeys[delegateIndexes[_i-1]]
+//@     invariant len(delegateIndexes) == len(dispatcher) && len(delegateKeys) == len(dispatcher)
+//@   loop 1
+//@     invariant @comparison-constant-is-the-key: _i >= 1 ==> iden[ssaRemap[dispatcher[_i-1].CompareVar]] == newKeys[_i-1]
+//@     invariant @stored-value-is-the-delegate-call-on-the-key-xor-the-delegate-key: _i >= 1 ==> dyntypeis(ssaRemap[dispatcher[_i-1].StoreVar], *ast.CallExpr) && dyntypeis(ssaRemap[dispatcher[_i-1].StoreVar].(*ast.CallExpr).Fun, *ast.IndexExpr) && ssaRemap[dispatcher[_i-1].StoreVar].(*ast.CallExpr).Fun.(*ast.IndexExpr).X.(*ast.Ident).Name == globalTableName && iden[ssaRemap[dispatcher[_i-1].StoreVar].(*ast.CallExpr).Fun.(*ast.IndexExpr).Index] == delegateIndexes[_i-1] && len(ssaRemap[dispatcher[_i-1].StoreVar].(*ast.CallExpr).Args) == 1 && iden[ssaRemap[dispatcher[_i-1].StoreVar].(*ast.CallExpr).Args[0]] == newKeys[_i-1] ^ delegateKeys[_i-1]
+//@   loop 2
+//@     invariant @delegate-d-undoes-the-key-of-delegate-d: _i >= 1 ==> dyntypeis(delegatesAst[_i-1], *ast.FuncLit) && len(delegatesAst[_i-1].(*ast.FuncLit).Body.List) == 1 && dyntypeis(delegatesAst[_i-1].(*ast.FuncLit).Body.List[0].(*ast.ReturnStmt).Results[0], *ast.BinaryExpr) && delegatesAst[_i-1].(*ast.FuncLit).Body.List[0].(*ast.ReturnStmt).Results[0].(*ast.BinaryExpr).Op == token.XOR && delegatesAst[_i-1].(*ast.FuncLit).Body.List[0].(*ast.ReturnStmt).Results[0].(*ast.BinaryExpr).X.(*ast.Ident).Name == "i" && delegatesAst[_i-1].(*ast.FuncLit).Body.List[0].(*ast.ReturnStmt).Results[0].(*ast.BinaryExpr).Y.(*ast.BinaryExpr).Op == token.XOR && iden[delegatesAst[_i-1].(*ast.FuncLit).Body.List[0].(*ast.ReturnStmt).Results[0].(*ast.BinaryExpr).Y.(*ast.BinaryExpr).Y] == delegateLocalKeys[_i-1] && iden[delegatesAst[_i-1].(*ast.FuncLit).Body.List[0].(*ast.ReturnStmt).Results[0].(*ast.BinaryExpr).Y.(*ast.BinaryExpr).X.(*ast.CallExpr).Args[0].(*ast.IndexExpr).Index] == delegateKeyIdxs[_i-1] && delegatesAst[_i-1].(*ast.FuncLit).Body.List[0].(*ast.ReturnStmt).Results[0].(*ast.BinaryExpr).Y.(*ast.BinaryExpr).X.(*ast.CallExpr).Args[0].(*ast.IndexExpr).X.(*ast.Ident).Name == "key"
+//@ end
